@@ -74,8 +74,7 @@ type packSpec struct {
 	oid    int32
 	lic    string // "" = client default
 	via    int    // entry point: 0 Send, 1 SendFlush(flush=false), 2 SendFlush(flush=true)
-	style  int    // 1: the options carry more than the license (an earlier license that a later one overrides,
-	//                  an explicit empty license, options that do not concern the frame)
+	style  int    // 1: decorated options (an earlier license a later one overrides, an explicit empty license, options that do not concern the frame)
 	n      int    // text length
 	div    byte
 	hash   int32
@@ -169,7 +168,7 @@ type scenario struct {
 	col    *collector
 	packs  map[*pack.TextPack]*packSpec
 	nondet bool
-	worker bool // direct mode with the client's background worker running (as GetOneWayTcpClient starts it)
+	worker bool    // direct mode with the client's background worker running (as GetOneWayTcpClient starts it)
 	curLic string  // the client's default license now (harness bookkeeping)
 	curCap int     // the capacity of the client's queue now (harness bookkeeping)
 	cfg    *cfgWin // not nil while the harness is changing the configuration (no send in progress)
@@ -509,9 +508,9 @@ type cfgWin struct {
 // mapConf is a config.Config over a map (what a reloaded configuration file gives to ApplyConfig).
 type mapConf struct{ m map[string]string }
 
-func (c *mapConf) ApplyDefault()      {}
+func (c *mapConf) ApplyDefault()       {}
 func (c *mapConf) GetConfFile() string { return "" }
-func (c *mapConf) Destroy()           {}
+func (c *mapConf) Destroy()            {}
 func (c *mapConf) GetKeys() []string {
 	var ks []string
 	for k := range c.m {
